@@ -122,7 +122,21 @@ def main():
             add(lay, method, 'multi', 1 + k % 4, nr, bamseed=bs)
             if tier != 'quick':
                 add(lay, method, 'multi', 1 + (k + 2) % 4, not nr and method != 'qflag', bamseed=bs)
-    results = th.run_cases(cases, workdir, parallel=8, timeout=120)
+        # (4) one contig with more fragments than the molecule iterator's ejection interval (check_eject_every = 10 000):
+        #     molecules are ejected while reading, not only at the end
+        for k in range(1 if tier == 'quick' else 3):
+            kinds = []
+            for _ in range(10_150 + 300 * k):
+                kinds.append(rng.choice(['single'] * 12 + ['pair', 'dup', 'nomotif', 'half', 'orphan_r2', 'pair_rev']))
+            lay = {'contigs': [{'name': 'chr2', 'len': 2500, 'big': False, 'kinds': ['pair']},
+                               {'name': 'chrDeep', 'len': 40_000_000, 'big': True, 'kinds': kinds}],
+                   'star': ['unplaced_single'] * 2}
+            bs = rng.randrange(1 << 30)
+            method = ['nla', 'chic'][k % 2]
+            add(lay, method, 'single', 1, False, bamseed=bs)
+            if tier != 'quick':
+                add(lay, method, 'multi', 2, k == 2, bamseed=bs)
+    results = th.run_cases(cases, workdir, parallel=8, timeout=300)
     with open(outp, 'w') as f:
         for c in cases:
             for e in events_for(c, results[c['id']], c['id']):
